@@ -227,7 +227,8 @@ class Ctx:
         self.build_log = ""
         self.audit_ok = None
         self.driver = Driver(driver_bin(prop))
-        self.findings = [f for f in load_known_findings() if f.get("property") == prop]
+        self.findings = [f for f in load_known_findings()
+                         if f.get("property") == prop or prop in f.get("properties", [])]
         self.extra = {}
 
     # ---- generators -------------------------------------------------------------
